@@ -10,7 +10,7 @@ use crate::opt::{landscape_strat, run_script, same_bits, Landscape, LandscapePol
 use crate::probe::Expect;
 
 pub const TITLE: &str = "The optimiser terminates normally and does the amount of work requested";
-pub const RULE: &str = "part work: steps in {0,1,2,...,5000} (small values favoured), inner_steps in {0,1,...,2*steps+1} (multiples, non-multiples, larger than steps), kT >= 0 with every cooling option, max_step_size in {0, 1e-9..1e-6 of a range of 2e6 (absolute moves 1e-3..1, never clamped)}, convergence in {None,0,1e-9,1e-3,1e9}, synthetic states (3..6 parameters on a wide range, so no move is clamped) scored by a generated landscape (concave, rippled, plateaus: converging early, late or never). Oracle: no panic; the number of proposals P (score() calls that changed a parameter) satisfies steps - min(inner,steps) < P <= steps (P = 0 when steps or inner_steps is 0) with one evaluation before and at most one after; the run with a convergence threshold is a bit-exact prefix of the run without it (same seed), and a proper prefix ends at an inner-loop boundary m >= 6 whose last six loops each improved the current score by less than the threshold (improvements recomputed from the trace at kT=0). part small-scope: every configuration with steps 0..16, inner_steps 0..2*steps+1 (and 1000), kT in {0, 0.5}, convergence None or a threshold every loop meets (complete enumeration): the exact number of proposals. part cli: argument vectors from a grammar of valid and invalid values (group names incl. unknown, polygon sides 0..12 and -1, LJ+polygon, trimer options incl. degenerate, replications 0..3, steps and inner-steps incl. 0, unknown potential, missing output directory, a directory in the place of the .svg file); oracle: exit 0 with both output files present and parseable, or exit != 0 with a message on stderr, never exit 101 / 'panicked at'. Non-trivial = inner does not divide steps, or steps*inner = 0, or an early exit occurred, or (cli) an invalid argument vector; distinct by hash of the case.";
+pub const RULE: &str = "part work: steps in {0,1,2,...,5000} (small values favoured), inner_steps in {0,1,...,2*steps+1} (multiples, non-multiples, larger than steps), kT >= 0 with every cooling option, max_step_size in {0, 1e-9..1e-6 of a range of 2e6 (absolute moves 1e-3..1, never clamped)}, convergence in {None,0,1e-9,1e-3,1e9}, synthetic states (3..6 parameters on a wide range, so no move is clamped) scored by a generated landscape (concave, rippled, plateaus: converging early, late or never). Oracle: no panic; the number of proposals P (score() calls that changed a parameter) satisfies steps - min(inner,steps) < P <= steps (P = 0 when steps or inner_steps is 0) with one evaluation before and at most one after; the run with a convergence threshold is a bit-exact prefix of the run without it (same seed), and a proper prefix ends at an inner-loop boundary m >= 6 whose last six loops each improved the current score by less than the threshold (improvements recomputed from the trace at kT=0). part small-scope: every configuration with steps 0..16, inner_steps 0..2*steps+1 (and 1000), kT in {0, 0.5}, convergence None or a threshold every loop meets (complete enumeration): the exact number of proposals. part cli: argument vectors from a grammar of valid and invalid values (group names incl. unknown, polygon sides 0..12 and -1, LJ+polygon, trimer options incl. degenerate, replications 0..3, steps and inner-steps incl. 0, unknown potential, missing output directory, a directory in the place of the .svg file); oracle: exit 0 with both output files present and parseable, or exit != 0 with a message on stderr, never exit 101 / 'panicked at'. part real-chains: the chains of 1..4 optimiser stages generated for C08 (every group; hard polygons, hard discs, Lennard-Jones; from_group and rescaled starts; step sizes 1e-3..8; kT >= 0) run on the real states, the state handed on through its JSON: no stage may panic on a state with a finite score. Non-trivial = inner does not divide steps, or (real-chains) two or more stages completed, or steps*inner = 0, or an early exit occurred, or (cli) an invalid argument vector; distinct by hash of the case.";
 
 pub fn assumptions() -> Vec<&'static str> {
     vec!["a CLI run that exceeds 120 s is reported as inconclusive (exit 2), not as a violation", "with max_step_size = 0 proposals cannot be told from the final validity evaluation; the count is then accepted under either reading"]
